@@ -470,6 +470,13 @@ fn decorrelate_scalar_subquery(
         return Ok(None);
     }
 
+    // COUNT over an empty correlation group is 0, but the Left join below
+    // yields NULL for an outer row without a group (the "COUNT bug"): leave
+    // COUNT subqueries to the row-by-row executor.
+    if plan_has_count_aggregate(&decorrelated_subquery) {
+        return Ok(None);
+    }
+
     // Get the output column from the subquery (this is what the scalar subquery returns)
     let subquery_schema = decorrelated_subquery.schema();
     if subquery_schema.fields().is_empty() {
@@ -587,6 +594,29 @@ fn decorrelate_scalar_subquery(
     };
 
     Ok(Some((join, new_predicate)))
+}
+
+/// Does the subquery's top aggregate (possibly under a projection) compute a COUNT?
+fn plan_has_count_aggregate(plan: &LogicalPlan) -> bool {
+    fn expr_has_count(e: &Expr) -> bool {
+        match e {
+            Expr::Aggregate { func, .. } => matches!(
+                func,
+                crate::planner::AggregateFunction::Count
+                    | crate::planner::AggregateFunction::CountDistinct
+            ),
+            Expr::Alias { expr, .. } | Expr::Cast { expr, .. } | Expr::UnaryExpr { expr, .. } => {
+                expr_has_count(expr)
+            }
+            Expr::BinaryExpr { left, right, .. } => expr_has_count(left) || expr_has_count(right),
+            _ => false,
+        }
+    }
+    match plan {
+        LogicalPlan::Aggregate(a) => a.aggregates.iter().any(expr_has_count),
+        LogicalPlan::Project(p) => plan_has_count_aggregate(&p.input),
+        _ => false,
+    }
 }
 
 /// Ensure the subquery is properly grouped by correlation columns
